@@ -18,7 +18,7 @@ from xv.props.common import ctxs, flush_contracts
 
 ID = "C08"
 LEVEL = "exploration"
-N_QUICK, N_THOROUGH = 8000, 300000
+N_QUICK, N_THOROUGH = 14000, 300000
 T_QUICK, T_THOROUGH = 70, 1500
 OPS = ["construct", "construct-empty", "construct-union", "copy-holder", "bind-other-type", "bind-existing", "bind-value", "bind-foreign", "bind-null",
        "write-through-ref", "write-through-original", "grow"]
